@@ -30,56 +30,68 @@ func (g *gen) add(s Step)      { g.steps = append(g.steps, s) }
 func (g *gen) user() string    { return fmt.Sprintf("@u%d", g.r.Intn(nUsers)) }
 func (g *gen) pick(xs ...string) string { return xs[g.r.Intn(len(xs))] }
 
+const two128 = "340282366920938463463374607431768211456"
+const maxInt = "115792089237316195423570985008687907853269984665640564039457584007913129639935" // 2^256-1
+
+// amount: mostly a valid fraction of the sender's balance (resolved at run time), plus boundary values
 func (g *gen) amount() string {
-	switch g.r.Intn(14) {
-	case 0:
-		return "0"
-	case 1:
-		return "-1"
-	case 2:
-		return "1"
-	case 3, 4:
-		return "bal"
-	case 5:
-		return "bal+1"
-	case 6:
-		return "bal-1"
-	case 7:
+	switch x := g.r.Intn(100); {
+	case x < 22:
 		return "half"
-	case 8:
+	case x < 40:
+		return "third"
+	case x < 50:
+		return "1"
+	case x < 62:
+		return fmt.Sprint(1 + g.r.Intn(20))
+	case x < 74:
+		return "bal"
+	case x < 78:
+		return "bal-1"
+	case x < 85:
+		return "bal+1"
+	case x < 88:
+		return "0"
+	case x < 90:
+		return "-1"
+	case x < 94:
 		return huge
-	case 9:
-		return "340282366920938463463374607431768211456"
+	case x < 97:
+		return two128
+	case x < 98:
+		return maxInt
 	default:
-		return fmt.Sprint(1 + g.r.Intn(60))
+		return fmt.Sprint(100 + g.r.Intn(400))
 	}
 }
 
 func (g *gen) smallAmount() string { return fmt.Sprint(1 + g.r.Intn(40)) }
 
 func (g *gen) receiver(self string) string {
-	switch g.r.Intn(16) {
-	case 0:
+	switch x := g.r.Intn(100); {
+	case x < 55:
+		return self
+	case x < 80:
+		return g.user()
+	case x < 83:
 		return "@module"
-	case 1:
+	case x < 86:
 		return "@feecol"
-	case 2:
+	case x < 89:
 		return "@distr"
-	case 3:
+	case x < 91:
 		return "@zero"
-	case 4:
+	case x < 94:
 		return "@fresh"
-	case 5:
+	case x < 97:
 		if len(g.toks) > 0 {
 			return fmt.Sprintf("@tok%d", g.r.Intn(len(g.toks)))
 		}
 		return "@thief"
-	case 6:
-		return "not-an-address"
-	case 7, 8, 9:
-		return g.user()
+	case x < 98:
+		return "@thief"
 	default:
-		return self
+		return "not-an-address"
 	}
 }
 
@@ -160,7 +172,7 @@ func (g *gen) setup() {
 			g.add(Step{Op: "register_erc20", Tok: ti})
 			t.reg = true
 		}
-		if kind == kindAdv {
+		if kind == kindAdv && r.Chance(1, 3) {
 			g.advCfg(ti)
 		}
 		if t.reg && di < len(g.dens) && r.Chance(1, 5) { // governance adds a native coin to an external pair
@@ -209,7 +221,7 @@ func (g *gen) denomOf(ti int) string {
 	if d == "" {
 		d = fmt.Sprintf("@tok%d.voucher", ti)
 	}
-	switch r.Intn(20) {
+	switch r.Intn(28) {
 	case 0: // a denomination of another pair / not registered
 		return g.pick("acoin", "bcoin", "zcoin", "stake")
 	case 1:
@@ -225,7 +237,10 @@ func (g *gen) denomOf(ti int) string {
 func (g *gen) convertCoin() {
 	r := g.r
 	ti := g.tokIndex()
-	s := g.user()
+	s := "@rich"
+	if r.Chance(1, 6) {
+		s = g.user()
+	}
 	if r.Chance(1, 25) {
 		s = g.pick("@fresh", "@module", "bad-bech32")
 	}
@@ -233,18 +248,21 @@ func (g *gen) convertCoin() {
 	if r.Chance(3, 10) {
 		via = "server"
 	}
-	g.add(Step{Op: "convert_coin", Sender: s, Receiver: g.receiver(s) + g.pick("", "", "", ".lower", ".bare", ".upper"), Denom: g.denomOf(ti), Amount: g.amount(), Via: via, Tok: ti})
+	g.add(Step{Op: "convert_coin", Sender: s, Receiver: g.receiver(s) + g.pick("", "", "", "", ".lower", ".bare", ".upper"), Denom: g.denomOf(ti), Amount: g.amount(), Via: via, Tok: ti})
 }
 
 func (g *gen) convertERC20() {
 	r := g.r
 	ti := g.tokIndex()
-	s := g.user()
+	s := "@rich"
+	if r.Chance(1, 6) {
+		s = g.user()
+	}
 	if r.Chance(1, 25) {
 		s = g.pick("@fresh", "@module", "0x12", "@zero")
 	}
-	c := fmt.Sprintf("@tok%d", ti) + g.pick("", "", "", ".lower", ".bare", ".upper")
-	if r.Chance(1, 20) {
+	c := fmt.Sprintf("@tok%d", ti) + g.pick("", "", "", "", ".lower", ".bare", ".upper")
+	if r.Chance(1, 25) {
 		c = g.pick("0x1234", "acoin", "@fresh", "@module", "")
 	}
 	via := "tx"
@@ -252,22 +270,39 @@ func (g *gen) convertERC20() {
 		via = "server"
 	}
 	rc := g.receiver(s)
-	g.add(Step{Op: "convert_erc20", Sender: s + g.pick("", "", ".lower"), Receiver: rc, Contract: c, Denom: g.denomOf(ti), Amount: g.amount(), Via: via, Tok: ti})
+	g.add(Step{Op: "convert_erc20", Sender: s + g.pick("", "", "", ".lower"), Receiver: rc, Contract: c, Denom: g.denomOf(ti), Amount: g.amount(), Via: via, Tok: ti})
+}
+
+type pending struct {
+	at int
+	st Step
 }
 
 func (g *gen) main(n int) {
 	r := g.r
+	var restore []pending
+	later := func(i int, st Step) { restore = append(restore, pending{at: i + 1 + r.Intn(3), st: st}) }
 	for i := 0; i < n; i++ {
+		// gates that were closed / misbehaviours that were switched on are usually undone a few steps later
+		keep := restore[:0]
+		for _, p := range restore {
+			if p.at <= i {
+				g.add(p.st)
+			} else {
+				keep = append(keep, p)
+			}
+		}
+		restore = keep
 		switch x := r.Intn(100); {
-		case x < 36:
+		case x < 38:
 			g.convertCoin()
-		case x < 72:
+		case x < 76:
 			g.convertERC20()
-		case x < 78:
-			g.add(Step{Op: "tok_transfer", Tok: g.tokIndex(), From: g.user(), To: g.pick(g.user(), g.user(), "@module", "@thief", "@zero"), Amount: g.pick("1", "5", "bal", "bal+1", "half")})
 		case x < 81:
-			g.add(Step{Op: "tok_burn", Tok: g.tokIndex(), From: g.user(), Amount: g.pick("1", "3", "bal", "bal+1")})
-		case x < 85:
+			g.add(Step{Op: "tok_transfer", Tok: g.tokIndex(), From: "@rich", To: g.pick(g.user(), g.user(), "@module", "@thief", "@zero"), Amount: g.pick("1", "5", "bal", "bal+1", "half")})
+		case x < 84:
+			g.add(Step{Op: "tok_burn", Tok: g.tokIndex(), From: "@rich", Amount: g.pick("1", "3", "bal", "bal+1")})
+		case x < 87:
 			d := "stake"
 			if len(g.dens) > 0 && r.Chance(3, 4) {
 				d = g.dens[r.Intn(len(g.dens))]
@@ -275,29 +310,43 @@ func (g *gen) main(n int) {
 			if len(g.toks) > 0 && r.Chance(1, 3) {
 				d = fmt.Sprintf("@tok%d.voucher", g.tokIndex())
 			}
-			g.add(Step{Op: "bank_send", From: g.user(), To: g.pick(g.user(), g.user(), "@fresh", "@distr", "@module"), Denom: d, Amount: g.pick("1", "4", "bal", "bal+1")})
-		case x < 89:
-			g.add(Step{Op: "toggle", Tok: g.tokIndex()})
-		case x < 91:
-			g.add(Step{Op: "params", Flag: r.Chance(1, 2)})
+			g.add(Step{Op: "bank_send", From: "@rich", To: g.pick(g.user(), g.user(), "@fresh", "@distr", "@module"), Denom: d, Amount: g.pick("1", "4", "bal", "bal+1")})
+		case x < 90:
+			ti := g.tokIndex()
+			g.add(Step{Op: "toggle", Tok: ti})
+			if r.Chance(4, 5) {
+				later(i, Step{Op: "toggle", Tok: ti})
+			}
+		case x < 92:
+			g.add(Step{Op: "params", Flag: false})
+			if r.Chance(4, 5) {
+				later(i, Step{Op: "params", Flag: true})
+			}
 		case x < 94:
 			d := ""
 			if r.Chance(3, 4) {
 				d = g.denomOf(g.tokIndex())
 			}
-			g.add(Step{Op: "send_enabled", Denom: d, Flag: r.Chance(1, 2)})
+			g.add(Step{Op: "send_enabled", Denom: d, Flag: false})
+			if r.Chance(3, 4) {
+				later(i, Step{Op: "send_enabled", Denom: d, Flag: true})
+			}
 		case x < 97:
 			ti := g.tokIndex()
 			if ti < len(g.toks) && g.toks[ti].kind == kindAdv {
+				before := len(g.steps)
 				g.advCfg(ti)
-			} else {
-				g.add(Step{Op: "params", Flag: true})
+				if len(g.steps) > before && r.Chance(2, 3) {
+					st := g.steps[len(g.steps)-1]
+					later(i, Step{Op: "token_cfg", Tok: ti, Slot: st.Slot, Amount: "0"})
+				}
 			}
 		case x < 98:
-			g.add(Step{Op: "evm_call_enabled", Flag: r.Chance(1, 2)})
+			g.add(Step{Op: "evm_call_enabled", Flag: false})
+			later(i, Step{Op: "evm_call_enabled", Flag: true})
 		case x < 99:
 			ti := g.tokIndex()
-			if ti < len(g.toks) && g.toks[ti].kind == kindAdv {
+			if ti < len(g.toks) && g.toks[ti].kind == kindAdv && r.Chance(1, 2) {
 				g.add(Step{Op: "token_kill", Tok: ti})
 			}
 		default:
